@@ -235,6 +235,21 @@ func (s *Svc) Big(ctx context.Context, tok string, n int) (string, error) {
 
 // Handle is decoded by a custom parameter decoder (HandleDecoder), which rejects what it does not like
 // the way the repository's own test decoder does: with an invalid reflect.Value and an error.
+// Num returns a float the caller chooses: kind 0 a finite value derived from tok, 1 NaN, 2 +Inf (values
+// encoding/json cannot encode).
+func (s *Svc) Num(ctx context.Context, tok string, kind int) (float64, error) {
+	r, g := s.enter(ctx, "Num", tok)
+	defer s.exit(ctx, r)
+	wait(ctx, g)
+	switch kind {
+	case 1:
+		return math.NaN(), nil
+	case 2:
+		return math.Inf(1), nil
+	}
+	return float64(len(tok)) + 0.5, nil
+}
+
 type Handle struct{ N int }
 
 func HandleDecoder(ctx context.Context, b []byte) (reflect.Value, error) {
@@ -678,6 +693,7 @@ type Client struct {
 	NoCtxR          func(tok string) (string, error) `retry:"true" rpc_method:"S.NoCtx"`
 	HoldHard        func(ctx context.Context, tok string, pad string) (string, error)
 	Big             func(ctx context.Context, tok string, n int) (string, error)
+	Num             func(ctx context.Context, tok string, kind int) (float64, error)
 	Mirror          func(ctx context.Context, tok string, pad string) (string, error)
 	BigR            func(ctx context.Context, tok string, n int) (string, error) `retry:"true" rpc_method:"S.Big"`
 	Fail            func(ctx context.Context, tok string) (string, error)
